@@ -72,14 +72,31 @@ func (e customErr) Error() string { return "custom trigger error " + strconv.Ito
 
 type fire struct {
 	val  int64
-	code int // -1: a fire time; 0: ErrTriggerExpired; >0: custom error
+	code int // -1: a fire time; 0: ErrTriggerExpired itself; wrappedExpired: the sentinel wrapped with %w; >0: an unrelated (custom) error
 }
 
+// wrappedExpired: the trigger reports expiry as fmt.Errorf("...: %w", quartz.ErrTriggerExpired) -- the idiom the library
+// uses for its own sentinels. It is an expiry (errors.Is), so results print as E0; only the trigger's script names it (Ew).
+const wrappedExpired = -3
+
+func (f fire) isErr() bool { return f.code != -1 }
+
 func (f fire) String() string {
+	if f.code == wrappedExpired {
+		return "E0"
+	}
 	if f.code >= 0 {
 		return "E" + strconv.Itoa(f.code)
 	}
 	return strconv.FormatInt(f.val, 10)
+}
+
+// item is the form used in a trigger's script (T command).
+func (f fire) item() string {
+	if f.code == wrappedExpired {
+		return "Ew"
+	}
+	return f.String()
 }
 
 type call struct {
@@ -137,7 +154,7 @@ func (t *rtrig) NextFireTime(prev int64) (int64, error) {
 	}
 	if t.log != nil {
 		e := event{Kind: "trig", Mono: m, Wall: wall, Tid: t.id, Prev: prev, Key: t.key}
-		if f.code >= 0 {
+		if f.isErr() {
 			e.Err = f.String()
 		} else {
 			e.Res = f.val
@@ -145,10 +162,12 @@ func (t *rtrig) NextFireTime(prev int64) (int64, error) {
 		t.log.add(e)
 	}
 	switch {
-	case f.code < 0:
+	case !f.isErr():
 		return f.val, nil
 	case f.code == 0:
 		return 0, quartz.ErrTriggerExpired
+	case f.code == wrappedExpired:
+		return 0, fmt.Errorf("calendar exhausted: %w", quartz.ErrTriggerExpired)
 	default:
 		return 0, fmt.Errorf("wrapped: %w", customErr{f.code})
 	}
@@ -173,13 +192,13 @@ func newFail(id, code int) *rtrig {
 func newScript(id int, script []fire, dflt fire) *rtrig {
 	items := make([]string, len(script))
 	for i, f := range script {
-		items[i] = f.String()
+		items[i] = f.item()
 	}
 	l := strings.Join(items, ",")
 	if l == "" {
 		l = "-"
 	}
-	return &rtrig{id: id, spec: fmt.Sprintf("sc %s %s", l, dflt), script: append([]fire{}, script...), dflt: dflt}
+	return &rtrig{id: id, spec: fmt.Sprintf("sc %s %s", l, dflt.item()), script: append([]fire{}, script...), dflt: dflt}
 }
 
 // ---------------------------------------------------------------------------
